@@ -458,9 +458,18 @@ impl<'a> Sim<'a> {
                 Some(t) => (Some(t.clone()), t.key.clone()),
                 None => return,
             },
-            None => (None, "00000000-0000-4000-8000-000000000000".to_string()),
+            None => (None, String::new()),
         };
         let Some(vt) = self.model.get(&victim).cloned() else { return };
+        // a key that belongs to nobody: unrelated, empty, or a near miss of the victim's key (truncated / extended)
+        let key = if caller.is_some() { key } else {
+            match (kind * 7 + pslot * 3 + victim) % 4 {
+                0 => "00000000-0000-4000-8000-000000000000".to_string(),
+                1 => String::new(),
+                2 => vt.key[..vt.key.len() / 2].to_string(),
+                _ => format!("{}0", vt.key),
+            }
+        };
         let foreign = caller_t.as_ref().map(|c| c.id != vt.id).unwrap_or(true);
         let pid = match vt.pipes.get(&pslot) {
             Some(p) => p.id.clone(),
@@ -515,6 +524,13 @@ impl<'a> Sim<'a> {
                 if s != pid && !s.is_empty() && resp.body.contains(&s) {
                     self.v28("response-leaks-other-tenant", kind_s, format!("response to [{}] contains {} of tenant {}", what, s, other.name));
                 }
+            }
+        }
+        if caller.is_none() {
+            // nobody's key opens nothing, whatever the endpoint
+            self.rep.probe("request-with-nobodys-key");
+            if resp.status / 100 == 2 {
+                self.v28("request-with-unknown-key-accepted", kind_s, format!("[{}] with key {:?} (not a tenant's key) answered {} {}", what, key, resp.status, resp.body.chars().take(160).collect::<String>()));
             }
         }
         if foreign && !matches!(kind_s, "list" | "usage") {
